@@ -6,11 +6,13 @@ fn main() {
     let code = match args.prop.as_str() {
         "C01" | "C02" | "C03" | "C06" | "C07" | "C08" => e1::run(&args),
         "C04" => e1_c04::c04(&args),
+        "C05" => e1_c05::c05(&args),
         "C36" => e2_index::c36(&args),
         "C26" => e5_c26::c26(&args),
         "C24" | "C25" => e2_hnsw::run(&args),
         "C34" => e2_rules::c34(&args),
         "C09" => e2_rules::c09(&args),
+        "C10" => e2_c10::c10(&args),
         "C35" => e2_c35::c35(&args),
         "C18" => e2_incr::c18(&args),
         "C19" => e2_incr::c19(&args),
